@@ -72,4 +72,12 @@ pub mod verif_hooks {
         let _guard = super::TZ_PROVIDER.lock();
         panic!("verif_hooks: injected panic while holding TZ_PROVIDER");
     }
+
+    /// Acquires the process-wide provider lock, runs `while_locked` (which lets a harness start
+    /// other threads that then block on the lock) and panics while still holding the lock.
+    pub fn panic_while_holding_provider_lock_with(while_locked: impl FnOnce()) {
+        let _guard = super::TZ_PROVIDER.lock();
+        while_locked();
+        panic!("verif_hooks: injected panic while holding TZ_PROVIDER");
+    }
 }
